@@ -94,7 +94,7 @@ func init() {
 		e.stats["reach:"+lbl]++
 		// vacuity witness: the path condition at this point must be satisfiable (a few attempts per label)
 		e.mu.Lock()
-		want := e.reachWanted[lbl] < 3
+		want := e.reachWanted[lbl] < 12 && !e.reachSat[lbl]
 		if want {
 			e.reachWanted[lbl]++
 		}
